@@ -609,19 +609,37 @@ func sharedElementFindings(fn *ssa.Function) []sharedElem {
 						v, what = x.Val, "a slice element"
 					}
 				}
-				obj, ok := v.(*ssa.Alloc)
-				if !ok || fi.InnermostLoop(b) != l {
+				if v == nil || fi.InnermostLoop(b) != l {
 					continue
 				}
-				if _, isPtr := obj.Type().Underlying().(*types.Pointer); !isPtr {
-					continue
+				// the objects the stored pointer can denote: an allocation, or a merge of allocations and nil (what a
+				// "decode one element" helper that was inlined back leaves behind)
+				var objs []*ssa.Alloc
+				seen := map[ssa.Value]bool{}
+				var leaves func(x ssa.Value, d int)
+				leaves = func(x ssa.Value, d int) {
+					if seen[x] || d > 6 {
+						return
+					}
+					seen[x] = true
+					switch y := x.(type) {
+					case *ssa.Alloc:
+						objs = append(objs, y)
+					case *ssa.Phi:
+						for _, e := range y.Edges {
+							leaves(e, d+1)
+						}
+					}
 				}
-				if _, isStruct := obj.Type().Underlying().(*types.Pointer).Elem().Underlying().(*types.Struct); !isStruct {
-					continue
+				leaves(v, 0)
+				for _, obj := range objs {
+					if _, isStruct := obj.Type().Underlying().(*types.Pointer).Elem().Underlying().(*types.Struct); !isStruct {
+						continue
+					}
+					// allocated inside this loop (or a loop nested in it): fresh per slot
+					fresh := l.Blocks[obj.Block()]
+					out = append(out, sharedElem{in, obj, what, !fresh && writes(obj)})
 				}
-				// allocated inside this loop or a loop nested in an enclosing one that contains the store: fresh per slot
-				fresh := l.Blocks[obj.Block()]
-				out = append(out, sharedElem{in, obj, what, !fresh && writes(obj)})
 			}
 		}
 	}
